@@ -355,6 +355,7 @@ func (v *Visitor) Visit(s *df.AnalyzerState, source df.NodeWithTrace) {
 				if !callSiteFromCallStack.Graph().Constructed {
 					v.onDemandIntraProcedural(s, callSiteFromCallStack.Graph())
 				}
+				v.checkReturnSiteEscape(s, callSiteFromCallStack, cur.Trace.Parent)
 				for nextNode, edgeInfos := range callSiteFromCallStack.Out() {
 					for _, edgeInfo := range edgeInfos {
 						if !(graphNode.Index() >= 0 && edgeInfo.Index >= 0 && graphNode.Index() != edgeInfo.Index) {
@@ -387,6 +388,7 @@ func (v *Visitor) Visit(s *df.AnalyzerState, source df.NodeWithTrace) {
 					if !callSite.Graph().Constructed {
 						v.onDemandIntraProcedural(s, callSite.Graph())
 					}
+					v.checkReturnSiteEscape(s, callSite, nil)
 					for nextNode, edgeInfos := range callSite.Out() {
 						for _, edgeInfo := range edgeInfos {
 							nextNodeWithTrace := df.NodeWithTrace{
@@ -905,6 +907,23 @@ func (v *Visitor) manageEscapeContexts(s *df.AnalyzerState, cur *df.VisitorNode,
 			formatutil.Sanitize(f.String()))
 	}
 	return update
+}
+
+// checkReturnSiteEscape checks the instructions the value of a call flows through in the caller when tainted data
+// returns to that call site. The call site is only an intermediate node of the traversal (its successors are the
+// nodes that get visited), so without this its location set would never be compared with the locality information,
+// e.g. `t := id(tainted); shared.f = t` where nothing else uses t.
+func (v *Visitor) checkReturnSiteEscape(s *df.AnalyzerState, callSite *df.CallNode, trace *df.CallStack) {
+	if !s.Config.UseEscapeAnalysis || callSite == nil {
+		return
+	}
+	key := trace.Key()
+	if handle := trace.GetLassoHandle(); handle != nil {
+		key = handle.Key()
+	}
+	if escapeInfo := v.escapeGraphs[callSite.Graph().Parent][key]; escapeInfo != nil {
+		v.checkEscape(s, callSite, escapeInfo)
+	}
 }
 
 // checkEscape checks that the instructions associated to the node do not involve operations that manipulate data
